@@ -251,6 +251,8 @@ def p_scatter_sub_assign(I, st, fr, e, c, a):
     I.pre_bound(st, fr, e, "scatter_sub_assign", ixs, t_len(x))
     import rules_terms
     r = rules_terms.prove_scatter_sub(I, st, fr, x, ixs, rhs)
+    if not r and st.eq(t_len(ixs), 0):
+        r = "nothing-to-subtract"
     I.oblige("PRE", fr, e, "scatter_sub_assign", "no underflow: self[ixs[i]] >= rhs[i]", bool(r), r or "",
              detail="" if r else I.describe(st))
     I.write_place(st, place, VSeq(("ssa", x, ixs, rhs)))
